@@ -400,7 +400,9 @@ def transpile_structure(
             vyxal.structure.ForLoop,
             vyxal.structure.WhileLoop,
         ):
-            return indent_str("break", indent)
+            return indent_str("ctx.context_values.pop()", indent) + indent_str(
+                "break", indent
+            )
         elif struct.parent_structure == vyxal.structure.FunctionDef:
             return (
                 indent_str("ctx.inputs.pop()", indent)
@@ -412,6 +414,8 @@ def transpile_structure(
                 indent_str("ret = [pop(stack, 1, ctx=ctx)]", indent)
                 + indent_str("ctx.context_values.pop()", indent)
                 + indent_str("ctx.inputs.pop()", indent)
+                + indent_str("ctx.stacks.pop()", indent)
+                + indent_str("ctx.function_stack.pop()", indent)
                 + indent_str("return ret", indent)
             )
         else:
@@ -419,10 +423,11 @@ def transpile_structure(
     if isinstance(struct, vyxal.structure.RecurseStatement):
         if struct.parent_structure == vyxal.structure.IfStatement:
             return indent_str("pass", indent)
-        elif struct.parent_structure in (
-            vyxal.structure.ForLoop,
-            vyxal.structure.WhileLoop,
-        ):
+        elif struct.parent_structure == vyxal.structure.ForLoop:
+            return indent_str("ctx.context_values.pop()", indent) + indent_str(
+                "continue", indent
+            )
+        elif struct.parent_structure == vyxal.structure.WhileLoop:
             return indent_str("continue", indent)
         elif struct.parent_structure == vyxal.structure.FunctionDef:
             return indent_str(
